@@ -60,8 +60,10 @@ def Net.register {K : Type} (n : Net K) (s : Station K) : Net K :=
 /-- a network built by a sequence of `register_evse` calls -/
 def Net.run {K : Type} (regs : List (Station K)) : Net K := regs.foldl Net.register Net.init
 
-/-- `{station_id: i for i, station_id in enumerate(station_ids)}[sid]` (charging_network.py:70-72):
-    a dict comprehension keeps the LAST index stored under a key. -/
+/-- `{station_id: i for i, station_id in enumerate(self.station_ids)}[sid]` — the dict that
+    `InfrastructureInfo.get_station_index` reads (interface.py:207-209, 232-234; the network keeps an
+    identical one, charging_network.py:70-72).  A dict comprehension keeps the LAST index stored
+    under a key. -/
 def stationIndex : List String → String → Option Nat
   | [], _ => none
   | x :: r, sid =>
